@@ -56,7 +56,8 @@ impl PatchIndexEntry {
     /// Returns the entry and the number of bytes consumed.
     pub fn parse(data: &[u8], key_size: u8) -> Option<Self> {
         let size = entry_size(key_size);
-        if data.len() < size {
+        // Keys are kept in 16-byte arrays
+        if key_size > 16 || data.len() < size {
             return None;
         }
 
